@@ -64,6 +64,10 @@ func (e *Engine) call(fr *Frame, st *State, c *ssa.CallCommon, instr *ssa.Call, 
 				return e.inlineClosure(fr, st, fn, mc, args, rt, pos)
 			}
 		}
+		if pr, ok := c.Value.(*ssa.Parameter); ok && fr.top && e.contract != nil && e.contract.Callbacks[pr.Name()] {
+			e.note("calls through parameter %s are assumed not to write the heap (readonly_callback)", pr.Name())
+			return e.unknownResult(st, rt), true
+		}
 		e.unknownCall(st, "dynamic call")
 		return e.unknownResult(st, rt), true
 	}
@@ -84,7 +88,7 @@ func (e *Engine) callStatic(fr *Frame, st *State, callee *ssa.Function, args []V
 		if i := strings.LastIndex(key, "/"); i >= 0 {
 			short = key[i+1:]
 		}
-		e.ghostAsserts(fr, st, short, e.ordinal("call "+short), pos)
+		e.ghostAsserts(fr, st, short, e.ordinal("call "+short), pos, args)
 	}
 	if v, ok := e.stdModel(st, key, args, rt); ok {
 		return v, true
